@@ -13,12 +13,12 @@ import (
 	"verif/internal/univ"
 )
 
-// a simple path component: a string, or an integer of magnitude <= 1000
+// a simple path component: a string, or an integer of magnitude <= 5000
 func simpleKey(k any) (string, int, bool, bool) {
 	if s, ok := k.(string); ok {
 		return s, 0, true, true
 	}
-	if i, ok := smallIndex(k, 1000); ok {
+	if i, ok := smallIndex(k, 5000); ok {
 		return "", i, false, true
 	}
 	return "", 0, false, false
